@@ -505,3 +505,81 @@ def r6_acceptance_domain(ck, P):
             ck.violation(R, f.name, 'refusal on %s' % NAME[k], 'pixman_image_set_filter cannot install a separable-convolution block whose %s is %s, whatever its length: pixman_filter_create_separable_convolution produces such blocks, so a well-formed block is not accepted' % (NAME[k], ', '.join(str(v) for v in refused[:5]) + (' ...' if len(refused) > 5 else '')), '%s:%d' % (f.unit.name, f.line))
         else:
             ck.ok(R, 'every %s in %d..%d can be installed' % (NAME[k], dom[0], dom[-1]))
+
+
+def r7_signed_totals(ck, P, rid):
+    """T-WID / sibling agreement: every convolution fetcher reduces its per-channel totals as signed quantities"""
+    R = ck.rule(rid, 'the per-channel totals of every convolution fetcher (general path accumulate/reduce callbacks and the C fast path alike) are treated as signed: rounded with an arithmetic shift, converted with signed conversions and clipped below with a signed comparison, so that a negative total (kernels with negative lobes) gives 0 in every implementation', floor=4)
+    UNSIGNED_OPS = {'lshr': 'a logical shift', 'uitofp': 'an unsigned int-to-float conversion', 'fptoui': 'a float-to-unsigned conversion', 'udiv': 'an unsigned division'}
+    cbs = {}
+    for f in P.functions():
+        for c in f.calls():
+            if isinstance(c.callee, str) and 'convolution' in c.callee:
+                for o in c.a:
+                    if o[0] == 'f':
+                        g = P.resolve(f, o[1])
+                        if g is not None and len(g.params) >= 5:
+                            cbs[g] = c.callee
+    if len(cbs) < 4:
+        ck.incomplete(R, 'expected the accumulate/reduce callbacks of the general convolution fetchers, found %s' % sorted(g.name for g in cbs))
+
+    def total_values(g):
+        """SSA values that hold a total: the first four parameters (reduce) or loads/stores through them (accumulate)"""
+        tv = set()
+        for x in g.insts():
+            for o in x.a:
+                if o[0] == 'a' and o[1] < 4:
+                    tv.add(('a', o[1]))
+        return tv
+
+    for g, via in sorted(cbs.items(), key=lambda kv: kv[0].name):
+        ck.saw(g)
+        bad = None
+        for x in g.insts():
+            if x.op in UNSIGNED_OPS:
+                # only when the operand derives from a total (parameter 0..3 or memory reached through it)
+                roots = set()
+                for o in x.a:
+                    roots |= {r for r in common.value_arg_roots(g, o) if r[0] == 'arg' and r[1] < 4}
+                if x.op == 'fptoui':
+                    # the converted value is stored into a total
+                    if any(y.op == 'store' and any(r[0] == 'arg' and r[1] < 4 for r in common.roots(g, y.a[1])) for y in g.users(x)):
+                        roots.add(('arg', 0))
+                if roots:
+                    bad = (x, UNSIGNED_OPS[x.op]); break
+            if x.op == 'icmp' and x.d.get('p') in ('ult', 'ugt', 'ule', 'uge'):
+                roots = set()
+                for o in x.a:
+                    roots |= {r for r in common.value_arg_roots(g, o) if r[0] == 'arg' and r[1] < 4}
+                if roots:
+                    bad = (x, 'an unsigned comparison'); break
+        if bad:
+            ck.violation(R, g.name, 'unsigned treatment of a convolution total', '%s (callback of %s) applies %s to a per-channel total: a negative total wraps and is clipped to the maximum instead of 0, unlike the C fast path' % (g.name, via, bad[1]), bad[0].loc())
+        else:
+            ck.ok(R, '%s (callback of %s): totals handled as signed' % (g.name, via))
+    # the C fast path keeps its totals in locals named s?tot
+    for f in P.functions():
+        if 'separable_convolution' not in f.name or f.unit.name != 'pixman-fast-path.c':
+            continue
+        tot = {x.i for x in f.insts() if (x.dv or '') in ('satot', 'srtot', 'sgtot', 'sbtot')}
+        if not tot:
+            continue
+        ck.saw(f)
+        bad = None
+        for x in f.insts():
+            if x.op in UNSIGNED_OPS or (x.op == 'icmp' and x.d.get('p') in ('ult', 'ugt', 'ule', 'uge')):
+                def from_tot(o, d=0, seen=None):
+                    seen = seen if seen is not None else set()
+                    if o[0] != 'v' or o[1] in seen or d > 6:
+                        return False
+                    seen.add(o[1])
+                    if o[1] in tot:
+                        return True
+                    y = f.by_id[o[1]]
+                    return y.op in ('add', 'sub', 'phi', 'sext', 'zext', 'trunc', 'ashr', 'lshr') and any(from_tot(a, d + 1, seen) for a in y.a)
+                if any(from_tot(o) for o in x.a):
+                    bad = (x, UNSIGNED_OPS.get(x.op, 'an unsigned comparison')); break
+        if bad:
+            ck.violation(R, f.name, 'unsigned treatment of a convolution total', '%s applies %s to a per-channel total' % (f.name, bad[1]), bad[0].loc())
+        else:
+            ck.ok(R, '%s: totals handled as signed' % f.name)
